@@ -685,6 +685,17 @@ def _pad_len(p, caps=None):
     return None
 
 
+def _zero_bytes(v):
+    """n when v is n zero bytes: bytes(n), b'\\0' * n, bytearray(n)"""
+    if v[0] == 'call' and v[2] in (('name', 'bytes'), ('name', 'bytearray')) and len(v[3]) == 1 and not v[4]:
+        return v[3][0]
+    if v[0] == 'bin' and v[1] == '*':
+        for z, n in ((v[2], v[3]), (v[3], v[2])):
+            if z == ('const', b'\x00'):
+                return n
+    return None
+
+
 def padding_shape(flow, path):
     """the generator feeding the chunker yields `-(size of the previous file) % alignment` zero bytes between files,
     exactly when that number is non-zero (and there is a previous file and an alignment)"""
@@ -702,10 +713,12 @@ def padding_shape(flow, path):
                 for it in L.paths:
                     ys = []
                     for x in it.events:
-                        if x.kind == 'yield' and x.a[0] == 'call' and x.a[2] == ('name', 'bytes') and len(x.a[3]) == 1 and not x.a[4]:
-                            pl = _pad_len(x.a[3][0])
-                            if pl is not None:
-                                ys.append((x, pl))
+                        if x.kind != 'yield':
+                            continue
+                        n = _zero_bytes(x.a)
+                        pl = _pad_len(n) if n is not None else None
+                        if pl is not None:
+                            ys.append((x, pl))
                     if len(ys) > 1:
                         consistent = False
                         break
@@ -719,14 +732,18 @@ def padding_shape(flow, path):
                         continue
                     # no padding on this iteration: allowed only when it is known not to be needed
                     need = None
-                    for l, pol in lits:
-                        c, p = F.canon_lit(l, pol)
+                    for c, p in F.known(lits):
                         if c[0] == 'attr' and c[2] == 'alignment' and not p:
                             need = False
                         if _pad_len(c) is not None and not p:
                             need = False
-                        if c[0] == 'cmp' and c[1] == '==' and F.is_const(c[2], 0) and _pad_len(c[3]) is not None and p:
+                        if c[0] == 'cmp' and c[1] == '==' and p and ((F.is_const(c[2], 0) and _pad_len(c[3]) is not None)
+                                                                    or (F.is_const(c[3], 0) and _pad_len(c[2]) is not None)):
                             need = False
+                        if c[0] == 'cmp' and c[1] == '<' and not p and F.is_const(c[2], 0) and _pad_len(c[3]) is not None:
+                            need = False       # not (0 < padding)
+                        if c[0] == 'cmp' and c[1] == '<' and p and F.is_const(c[3], 1) and _pad_len(c[2]) is not None:
+                            need = False       # padding < 1
                         if c[0] == 'cmp' and c[1] == 'is' and (F.is_const(c[2]) and c[2][1] is None or F.is_const(c[3]) and c[3][1] is None) and p:
                             other = c[3] if F.is_const(c[2]) else c[2]
                             if other[0] == 'attr' and other[2] == 'current_file':
@@ -891,16 +908,8 @@ def cache_verified(flow):
                         for j in range(i + 1, len(evs)):
                             x = evs[j]
                             if x.kind == 'cond':
-                                c, pol = F.canon_lit(x.a, x.b)
-                                if pol and c[0] == 'cmp' and c[1] == '==':
-                                    for h, d in ((c[2], c[3]), (c[3], c[2])):
-                                        if h[0] == 'call' and func_name(h[2]) == 'hash_digest' and len(h[3]) == 1 \
-                                                and h[3][0] == F.strip(cr) and not F.contains(d, lambda t: t == F.strip(cr)) \
-                                                and d[0] != 'const':
-                                            # the hashed value must be THIS read
-                                            raw = x.a
-                                            if F.contains(raw, lambda t: F.sym_uid(t) == uid and t[0] == 'call'):
-                                                checked_at = j if checked_at is None else checked_at
+                                if checked_at is None and _digest_checked(evs[i + 1:j + 1], cr):
+                                    checked_at = j
                                 continue
                             use = _uses(x, uid)
                             if use is None:
@@ -932,6 +941,26 @@ def cache_verified(flow):
         if meths[mname].decorator_list or F.is_generator(meths[mname]):
             return False
     return verified > 0
+
+
+def _digest_checked(events, cr):
+    """the literals of these events imply hash_digest(cr) == <something that is not derived from cr>, for THIS read"""
+    uid = cr[1]
+    mine = [(e.a, e.b) for e in events if e.kind == 'cond' and F.contains(e.a, lambda t: F.sym_uid(t) == uid and t[0] == 'call')]
+    scr = F.strip(cr)
+    for c, pol in F.known(mine):
+        if not pol:
+            continue
+        pairs = []
+        if c[0] == 'cmp' and c[1] == '==':
+            pairs = [(c[2], c[3]), (c[3], c[2])]
+        elif c[0] == 'call' and func_name(c[2]) == 'compare_digest' and len(c[3]) == 2:
+            pairs = [(c[3][0], c[3][1]), (c[3][1], c[3][0])]
+        for h, d in pairs:
+            if h[0] == 'call' and func_name(h[2]) == 'hash_digest' and len(h[3]) == 1 and h[3][0] == scr \
+                    and not F.contains(d, lambda t: t == scr) and d[0] != 'const':
+                return True
+    return False
 
 
 def _event_lists(events):
